@@ -12,7 +12,7 @@ from vlib.refs import exact
 ID = "C13"
 LEVEL = "exploration"
 RULE = ("direct-driven histories on a real Models (n=1..4, every admissible "
-        "nb_points, 0-1 constraint models, <=10 operations): (1) a fresh "
+        "nb_points, 0-3 constraint models of both kinds, <=10 operations): (1) a fresh "
         "model (initial build / reset) is compared with the exact "
         "least-Frobenius-norm interpolant of the recorded values (constant, "
         "gradient, full Hessian in the solver's balanced scaling); (2) "
@@ -193,7 +193,9 @@ def run_case(case):
             # tiny sets: absolute displacements below 1e-8 (any absolute
             # tolerance in the solver's bookkeeping would show up here)
             radius = float(10.0 ** rng.uniform(-10, -8))
-        h = drive.History(rng, n=n, mc_ub=int(rng.integers(0, 2)), mc_eq=0,
+        mcs = [(0, 0), (0, 0), (1, 0), (0, 1), (1, 1), (2, 1)][
+            int(rng.integers(6))]
+        h = drive.History(rng, n=n, mc_ub=mcs[0], mc_eq=mcs[1],
                           radius=radius)
         itp = h.itp
         nn = h.npt + n + 1
@@ -250,6 +252,8 @@ def run_case(case):
             dd = [float(vals_new[0] - h.models.fun(x_new))]
             dd += [float(c_ - m_) for c_, m_ in zip(cub,
                                                     h.models.cub(x_new))]
+            dd += [float(c_ - m_) for c_, m_ in zip(ceq,
+                                                    h.models.ceq(x_new))]
             try:
                 h.models.update_interpolation(k, x_new, fv, cub, ceq)
             except np.linalg.LinAlgError:
